@@ -19,6 +19,17 @@ class PathAbort(BaseException):
     """raised to abandon an infeasible / over-deep path (BaseException so that `except Exception` does not eat it)"""
 
 
+class PathError:
+    """the symbolically executed code raised an ordinary exception on this path"""
+
+    def __init__(self, exc, tb):
+        self.exc = exc
+        self.tb = tb
+
+    def __repr__(self):
+        return f"PathError({type(self.exc).__name__}: {self.exc})"
+
+
 class Explorer:
     def __init__(self, max_paths=20000, max_depth=400, feas_timeout_ms=1500, assumptions_fn=None):
         self.max_paths = max_paths
@@ -110,17 +121,16 @@ class Explorer:
             CTX.explorer = self
             self.solver = z3.Solver()
             self.solver.set("timeout", self.feas_timeout_ms)
-            arg = setup() if setup is not None else None
-            for a in CTX.assumptions:
-                self.solver.add(a)
-            self._n_assumed = len(CTX.assumptions)
+            self._n_assumed = 0
             try:
+                arg = setup() if setup is not None else None
                 self._sync_assumptions()
                 res = body(arg) if setup is not None else body()
             except PathAbort:
                 continue
-            finally:
-                pass
+            except Exception as e:  # noqa: the code under test (or the engine) failed on this path
+                import traceback
+                res = PathError(e, traceback.format_exc()[-1500:])
             self.paths_done += 1
             yield res, list(self.pc), list(self.trace)
         CTX.explorer = None
